@@ -67,7 +67,8 @@ def main():
             tot["targets_generated"] += 1
             if res[t]["sha"] != base[t]["sha"]:
                 tot["differing"] += 1
-                cause = "hash-seed" if not r["history"] else ("history" if r["seed"] == 0 else "history+hash-seed")
+                # histories that change numpy's print options form a class of their own (text that goes through repr() of an array)
+                cause = "hash-seed" if not r["history"] else ("history:P" if "P" in r["history"] else "history" if r["seed"] == 0 else "history+hash-seed")
                 k = f"{PID}:{t}:{cause}"
                 if k not in seen:
                     seen[k] = 0
